@@ -231,6 +231,30 @@ def run_two_sample_dims(ctx, rng, N):
                         tol=1e-5 if name == "SparsePCA" else 1e-6)
 
 
+def run_many_items(ctx, rng, N):
+    """a one-dimensional feature axis cut into 11..14 list items (positions with two digits)"""
+    import xarray as xr
+    specs = Z.specs()
+    for i in range(N):
+        name = ["EOF", "ComplexEOF", "SparsePCA"][i % 3]
+        sp = specs[name]
+        n, p = int(rng.integers(10, 16)), int(rng.integers(11, 15))
+        da3 = base_data(rng, n, 1, p, cplx=sp.cplx)
+        da = xr.DataArray(da3.values.reshape(n, p), dims=("time", "x"), coords={"time": np.arange(n), "x": rng.permutation(p) * 2.0 + 1})
+        replay = dict(kind="many-items", cls=name, data=np.asarray(da.values), x=np.asarray(da.x.values))
+        ctx.case(("c07-many", name, n, p, i), nontrivial=True, tag="%s/split-into-%d-items" % (name, p), sample=dict(cls=name, shape=[n, p], variant="one list item per feature"))
+        upto = name == "SparsePCA" or sp.cplx
+        try:
+            m0 = sp.make(2, solver="full")
+            m0.fit(da, "time")
+            m1 = sp.make(2, solver="full")
+            m1.fit([da.isel(x=slice(j, j + 1)) for j in range(p)], "time")
+            compare(ctx, "C07:%s:split-many-items" % name, "%s with the features cut into %d list items" % (name, p), results(m0, "single"), results(m1, "single"),
+                    replay, upto_sign=upto, tol=1e-5 if name == "SparsePCA" else 1e-6)
+        except Exception as e:
+            ctx.violation("C07:%s:split-many-items:error:%s" % (name, C.errkind(e)), "%s on a list of %d one-feature items raised %r" % (name, p, e), replay)
+
+
 def run_cross(ctx, rng, N):
     specs = Z.specs()
     names = ["MCA", "CCA", "CPCCA", "ComplexMCA"]
@@ -274,6 +298,7 @@ def run(ctx):
     rng = ctx.rng.child("c07").np
     run_single(ctx, rng, ctx.n(21, 420))
     run_two_sample_dims(ctx, rng, ctx.n(12, 240))
+    run_many_items(ctx, rng, ctx.n(6, 60))
     run_cross(ctx, rng, ctx.n(8, 200))
     from harness import ren
     ren.run(ctx, "C07", ctx.n(120, 1200))
